@@ -2,6 +2,7 @@
     Fibonacci-bounded height; index and rank lookups are mutually inverse.
     Statements are restated in full; proofs are in MTreeFacts.v / TreeFacts.v. *)
 From IAVL Require Import Bytes Varint Sha256 Tree VMap TreeFacts MTree MTreeFacts.
+From IAVL Require Cost CostFacts.
 Local Open Scope Z_scope.
 
 Theorem C11_avl_reachable :
@@ -68,3 +69,57 @@ Example C11_example :
     get_by_index n 2 = Some ([4%N], [40%N]) /\ get n [4%N] = (2, Some [40%N]) /\
     get_by_index n 6 = None /\ get_by_index n (-1) = None.
 Proof. vm_compute. do 2 eexists. repeat split; reflexivity. Qed.
+
+(** * Node reads of lookups and proofs with nothing cached (Cost.v: getLeftNode/getRightNode
+    fetch a child with one read and do not keep it; [Node.get], [has], [getByIndex],
+    [pathToLeaf], [GetMembershipProof], [GetNonMembershipProof], [GetProof] as coded) *)
+Module CostPart.
+Import Cost CostFacts.
+
+(** the second half of the property, for every well-formed tree (balance is not needed) *)
+Theorem C11_read_bounds :
+  forall t : node, wf t ->
+    (forall k, cost_get t k <= 2 * height t + 2) /\
+    (forall k, cost_has t k <= 2 * height t + 2) /\
+    (forall k, cost_get_with_index t k <= 2 * height t + 2) /\
+    (forall i, cost_get_by_index t i <= 2 * height t + 2) /\
+    (forall k, cost_membership_proof t k <= 10 * height t + 10) /\
+    (forall k, cost_nonmembership_proof t k <= 10 * height t + 10) /\
+    (forall k, cost_get_proof t k <= 10 * height t + 10).
+Proof. exact cost_C11. Qed.
+Print Assumptions C11_read_bounds.
+
+(** exact costs: a lookup reads one node per level of the search path, an existence proof two *)
+Theorem C11_get_cost_exact :
+  forall (t : node) (k : bytes), cost_get t k = depth t k.
+Proof. exact cost_get_exact. Qed.
+Print Assumptions C11_get_cost_exact.
+
+Theorem C11_membership_cost_exact :
+  forall (t : node) (k : bytes), cost_membership_proof t k = 2 * depth t k.
+Proof. exact cost_membership_proof_exact. Qed.
+Print Assumptions C11_membership_cost_exact.
+
+(** the sharp bound for [GetProof], and a family of trees of every height that attains it: the
+    margin of the property's 10h+10 is eleven reads *)
+Theorem C11_proof_cost_sharp :
+  forall (t : node) (k : bytes),
+    heights_ok t -> sizes_pos t -> 1 <= height t -> cost_get_proof t k <= 10 * height t - 1.
+Proof. exact cost_get_proof_sharp. Qed.
+Print Assumptions C11_proof_cost_sharp.
+
+Theorem C11_proof_cost_sharp_attained :
+  forall n : nat, exists t k,
+    wf t /\ height t = Z.of_nat n + 1 /\ has t k = false /\
+    ((n <= 125)%nat -> keys_all well_formed t /\ well_formed k) /\
+    cost_get_proof t k = 10 * height t - 1.
+Proof. exact cost_get_proof_sharp_attained. Qed.
+Print Assumptions C11_proof_cost_sharp_attained.
+
+(** a lookup by rank fetches the left child at every step (for its size) and both children on a
+    right step: "one read per level" is false for it, 2h is the bound *)
+Theorem C11_get_by_index_one_per_level_refuted :
+  exists t i, wf t /\ avl t /\ get_by_index t i <> None /\ ~ cost_get_by_index t i <= height t.
+Proof. exact cost_get_by_index_le_height_refuted. Qed.
+Print Assumptions C11_get_by_index_one_per_level_refuted.
+End CostPart.
